@@ -214,12 +214,13 @@ Lemma tok_reset_wf t : wf_tok (tok_reset t). Proof. reflexivity. Qed.
 Lemma tok_new_wf d s a v t : tok_new d s a v = Some t -> wf_tok t.
 Proof. unfold tok_new. destruct (d <? 1); [discriminate|]. intros H; inversion H. reflexivity. Qed.
 
-(* the corner named in parse_total exists: the C string  [1 slash star  is reported as success
-   with the value 1 while one level is still open *)
-Lemma success_at_depth_pos_witness :
-  exists t t' v, tok_new 32 false false false = Some t /\
-    parse_ex_cstr (fun _ => 0) t [91;49;32;47;42] = PR t' (Some v) /\ v = JInt 1 /\ depth t' = 1.
-Proof. eexists _, _, _. split; [reflexivity|]. vm_compute. repeat split. Qed.
+(* the corner that parse_total used to name is gone (fix "a finished value inside an open container does not end
+   the text"): the C string  [1 slash star  was reported as success with the value 1 while one level was still
+   open; the end-of-text test now also requires depth 0, and the text is refused as incomplete *)
+Lemma open_container_at_nul_is_eof :
+  exists t t', tok_new 32 false false false = Some t /\
+    parse_ex_cstr (fun _ => 0) t [91;49;32;47;42] = PR t' None /\ err t' = TE_eof.
+Proof. eexists _, _. split; [reflexivity|]. vm_compute. split; reflexivity. Qed.
 
 (* reset: examples where the fields that reset leaves alone are stale, evaluated inside Coq:
    (1) an abandoned string ending in the escape ud800, then reset, then the string u0041 gives A,
